@@ -263,7 +263,9 @@ Definition so_step (prop : Z) (ns : nat) (snaps : list (list ssnap)) (o : so) (r
                       match sget p (o_ack o0) with
                       | Some old =>
                           if k_cid old =? p_cid x then
-                            let o1 := if prop =? 5 then so_req o0 (match sget p (o_store o0) with None => true | Some _ => existsb (fun g => fst g =? p) (o_gonep o0) end) 502 else o0 in
+                            (* (a record of ANOTHER sandbox id in the store — an ADD that reached the disk but was not acknowledged before a crash —
+                               makes this DEL a stale one: it is ignored, see C04) *)
+                            let o1 := if prop =? 5 then so_req o0 (match sget p (o_store o0) with None => true | Some st => negb (k_cid st =? p_cid x) || existsb (fun g => fst g =? p) (o_gonep o0) end) 502 else o0 in
                             so_upd o1 (o_store o1) (if existsb (fun g => fst g =? p) (o_gonep o1) then o_ack o1 else sdel p (o_ack o1)) (o_rpcs o1) (o_gonep o1) (o_apie o1) (o_ingc o1) (o_failed o1) (o_restarted o1)
                           else
                             (* a DEL for another sandbox neither releases nor removes the current allocation *)
